@@ -104,6 +104,14 @@ func runC19(p *eng.Prog, r *eng.Report, tier string) {
 	decoderSkipTypestate(c, "C19.9", inC19, 8)
 	// ---- C19.12 encoders emit field values verbatim
 	c19BlankLines(c, "C19.13")
+	nGate := emissionGatedBySibling(c, "C19.17", inC19)
+	c.r.Floor("C19.17", "uses of receiver fields in the payload encoders", nGate, 100)
+	nNm := qualifiedNamesStructured(c, "C19.16", inC19)
+	c.r.Floor("C19.16", "xml.Name literals in the payload packages", nNm, 50)
+	nAppD := decodedEntryAppended(c, "C19.15", inC19)
+	c.r.Note("C19.15: %d decoders that append decoded entries examined", nAppD)
+	nTr := parsedIntTruncation(c, "C19.14", inC19)
+	c.r.Note("C19.14: %d narrowing conversions of parsed numbers examined", nTr)
 	nle := lossyEmission(c, "C19.12", inC19)
 	c.r.Floor("C19.12", "emitted texts in the payload encoders", nle, 40)
 	// C19.11 tokens of an xml.Decoder are not replayed to the wire as they
